@@ -61,6 +61,18 @@ class C08(XsProp):
             toks = [rng.choice(soupw) if rng.random() < 0.6 else rng.choice(lits) for _ in range(k)]
             cs.append('xp limits 600 80 40 | input a50f33cc0100ff41420043 4 84 | eval %s | pretty | eval %s | pretty' % (
                 hexsrc(' '.join(toks)), hexsrc(' '.join(rng.choice(soupw) for _ in range(3)))))
+        # (b') bodies of every bracketing construct that consume more than they produce, reaching for the values that were on
+        # the stack before the opener (frame arithmetic: lengths are subtracted when the construct closes)
+        frames = [('[', ']'), ('{', '}'), ('^{', '^}'), ('1 ^{', '^}'), ('#(', '#)'), ('#(', '~)'), (': nm', '; nm'), ('1 if', 'then'),
+                  ('begin', '1 until'), ('2 0 do', 'loop'), ('1 case', 'endcase'), ('[ 1 2 ] foreach', 'loop'), ('[ [', '] ]'),
+                  ('{ [', '] 1 }'), ('#( [', '] #)'), ('[ #(', '#) ]'), ('{ 1', '}'), ('[ 1 2 ] let [', ']'), ('{ 1 "k" } let {', '}')]
+        bodies = ['', 'drop', 'drop drop', 'drop drop drop', 'drop drop drop drop', 'swap', 'rot', 'over', 'swap drop', 'rot drop drop',
+                  'drop 7', 'drop drop 7', 'drop drop 7 8', 'depth', '2 collect', '3 collect', 'over over', 'drop 1 2 3']
+        for (o, c) in frames:
+            for k in range(0, 4):
+                for b in bodies:
+                    src = ' '.join([' '.join(str(i + 1) for i in range(k)), o, b, c]).strip()
+                    cs.append('xp limits 600 80 40 | eval %s | pretty | eval %s | pretty' % (hexsrc(src), hexsrc('1 2 + depth')))
         # (c) API sequences
         for _ in range(500 if not thorough else 20000):
             steps = ['xp limits 500 80 40']
